@@ -642,6 +642,36 @@ def rightE (pb : Problem) (p : Nat × Nat) : List Expr :=
 theorem natCast_bne (a b : Nat) : (((a : Nat) : Int) != ((b : Nat) : Int)) = (a != b) := by
   simp [bne, natCast_beq]
 
+/-- The first `if` of the body of the final double loop. -/
+def downM (pb : Problem) (bid : List (List Int)) (ns ht : List Expr) (p : Nat × Nat) : Py (List Expr) :=
+  if (p.1 : Int) < (pb.height : Int) - 1 then do
+    let i ← tableGet bid (p.1 : Int) (p.2 : Int)
+    let j ← tableGet bid ((p.1 : Int) + 1) (p.2 : Int)
+    if i != j then (borderC (IB pb) ns ht ((p.1 : Int), (p.2 : Int)) ((p.1 : Int) + 1, (p.2 : Int)) i j)
+    else (.ok [])
+  else .ok []
+
+/-- The second `if`. -/
+def rightM (pb : Problem) (bid : List (List Int)) (ns ht : List Expr) (p : Nat × Nat) : Py (List Expr) :=
+  if (p.2 : Int) < (pb.width : Int) - 1 then do
+    let i ← tableGet bid (p.1 : Int) (p.2 : Int)
+    let j ← tableGet bid (p.1 : Int) ((p.2 : Int) + 1)
+    if i != j then (borderC (IB pb) ns ht ((p.1 : Int), (p.2 : Int)) ((p.1 : Int), (p.2 : Int) + 1) i j)
+    else (.ok [])
+  else .ok []
+
+theorem ite_bind_py {α β : Type} (c : Prop) [Decidable c] (a b : Py α) (f : α → Py β) :
+    ((if c then a else b) >>= f) = if c then a >>= f else b >>= f := by
+  split <;> rfl
+
+theorem adjCs_eq (pb : Problem) (bid : List (List Int)) (ns ht : List Expr) (p : Nat × Nat) :
+    adjCs pb (IB pb) bid ns ht p = (do
+      let c1 ← downM pb bid ns ht p
+      let c2 ← rightM pb bid ns ht p
+      .ok (c1 ++ c2)) := by
+  unfold adjCs downM rightM
+  simp only [ite_bind_py, bind_assoc, ok_bind]
+
 theorem adjCs_closed {pb : Problem} (hwf : WellFormed pb) {bid : List (List Int)}
     (hbid : Rep pb.height pb.width bid (fun y x => ((regionIdx pb (y, x) : Nat) : Int)))
     {p : Nat × Nat} (hp : OnB pb p) :
@@ -649,14 +679,9 @@ theorem adjCs_closed {pb : Problem} (hwf : WellFormed pb) {bid : List (List Int)
         (bvars (base pb + pb.blocks.length) pb.blocks.length) p
       = .ok (downE pb p ++ rightE pb p) := by
   have hri := regionIdx_lt hwf hp
-  have hd : (if (p.1 : Int) < (pb.height : Int) - 1 then do
-        let i ← tableGet bid (p.1 : Int) (p.2 : Int)
-        let j ← tableGet bid ((p.1 : Int) + 1) (p.2 : Int)
-        if i != j then borderC (IB pb) (ivars (base pb) pb.blocks.length)
-          (bvars (base pb + pb.blocks.length) pb.blocks.length) ((p.1 : Int), (p.2 : Int))
-          ((p.1 : Int) + 1, (p.2 : Int)) i j else .ok []
-      else .ok []) = .ok (downE pb p) := by
-    unfold downE
+  have hd : downM pb bid (ivars (base pb) pb.blocks.length)
+      (bvars (base pb + pb.blocks.length) pb.blocks.length) p = .ok (downE pb p) := by
+    unfold downE downM
     by_cases h1 : p.1 + 1 < pb.height
     · have hq : OnB pb (p.1 + 1, p.2) := ⟨h1, hp.2⟩
       have e2 : ((p.1 : Int) + 1) = ((p.1 + 1 : Nat) : Int) := by omega
@@ -668,14 +693,9 @@ theorem adjCs_closed {pb : Problem} (hwf : WellFormed pb) {bid : List (List Int)
       · rw [if_pos (by simpa using hne), if_pos ⟨h1, hne⟩]
         exact borderC_closed hp hq hri (regionIdx_lt hwf hq)
     · rw [if_neg (by omega), if_neg (by simp [h1])]
-  have hr : (if (p.2 : Int) < (pb.width : Int) - 1 then do
-        let i ← tableGet bid (p.1 : Int) (p.2 : Int)
-        let j ← tableGet bid (p.1 : Int) ((p.2 : Int) + 1)
-        if i != j then borderC (IB pb) (ivars (base pb) pb.blocks.length)
-          (bvars (base pb + pb.blocks.length) pb.blocks.length) ((p.1 : Int), (p.2 : Int))
-          ((p.1 : Int), (p.2 : Int) + 1) i j else .ok []
-      else .ok []) = .ok (rightE pb p) := by
-    unfold rightE
+  have hr : rightM pb bid (ivars (base pb) pb.blocks.length)
+      (bvars (base pb + pb.blocks.length) pb.blocks.length) p = .ok (rightE pb p) := by
+    unfold rightE rightM
     by_cases h1 : p.2 + 1 < pb.width
     · have hq : OnB pb (p.1, p.2 + 1) := ⟨hp.1, h1⟩
       have e2 : ((p.2 : Int) + 1) = ((p.2 + 1 : Nat) : Int) := by omega
@@ -687,26 +707,127 @@ theorem adjCs_closed {pb : Problem} (hwf : WellFormed pb) {bid : List (List Int)
       · rw [if_pos (by simpa using hne), if_pos ⟨h1, hne⟩]
         exact borderC_closed hp hq hri (regionIdx_lt hwf hq)
     · rw [if_neg (by omega), if_neg (by simp [h1])]
-  have : adjCs pb (IB pb) bid (ivars (base pb) pb.blocks.length)
-        (bvars (base pb + pb.blocks.length) pb.blocks.length) p = (do
-      let c1 ← (if (p.1 : Int) < (pb.height : Int) - 1 then do
-        let i ← tableGet bid (p.1 : Int) (p.2 : Int)
-        let j ← tableGet bid ((p.1 : Int) + 1) (p.2 : Int)
-        if i != j then borderC (IB pb) (ivars (base pb) pb.blocks.length)
-          (bvars (base pb + pb.blocks.length) pb.blocks.length) ((p.1 : Int), (p.2 : Int))
-          ((p.1 : Int) + 1, (p.2 : Int)) i j else .ok []
-      else .ok [])
-      let c2 ← (if (p.2 : Int) < (pb.width : Int) - 1 then do
-        let i ← tableGet bid (p.1 : Int) (p.2 : Int)
-        let j ← tableGet bid (p.1 : Int) ((p.2 : Int) + 1)
-        if i != j then borderC (IB pb) (ivars (base pb) pb.blocks.length)
-          (bvars (base pb + pb.blocks.length) pb.blocks.length) ((p.1 : Int), (p.2 : Int))
-          ((p.1 : Int), (p.2 : Int) + 1) i j else .ok []
-      else .ok [])
-      .ok (c1 ++ c2)) := by
-    unfold adjCs
-    simp only
-    split <;> [split; skip] <;> split <;> (try split) <;> simp [bind, Except.bind]
-  rw [this, hd, ok_bind, hr, ok_bind]
+  rw [adjCs_eq, hd, ok_bind, hr, ok_bind]
+
+/-! ### the 2 × 2 constraint -/
+
+theorem cellsOf_length (a b : Nat) : (cellsOf a b).length = a * b := by
+  induction a with
+  | zero => simp [cellsOf]
+  | succ a ih =>
+    simp only [cellsOf] at ih ⊢
+    rw [List.range_succ, List.flatMap_append, List.length_append, ih]
+    simp [Nat.succ_mul]
+
+theorem zipWith_map_same {α β γ δ : Type} (f : β → γ → δ) (a : α → β) (b : α → γ) (l : List α) :
+    List.zipWith f (l.map a) (l.map b) = l.map fun i => f (a i) (b i) := by
+  rw [List.zipWith_map, List.zipWith_self]
+
+/-- `is_black[dy: or :-1, dx: or :-1]`. -/
+theorem slice_shift (pb : Problem) (dy dx : Nat) (ky kx : AxisKey) (hdy : dy ≤ 1) (hdx : dx ≤ 1)
+    (hy : axisSel pb.height ky = .ok (false, (List.range (pb.height - 1)).map (· + dy)))
+    (hx : axisSel pb.width kx = .ok (false, (List.range (pb.width - 1)).map (· + dx))) :
+    getitemV (IB pb) (.pair ky kx) = .ok (.arr2 true (pb.height - 1) (pb.width - 1)
+      ((cellsOf (pb.height - 1) (pb.width - 1)).map fun p => cv pb.width (p.1 + dy, p.2 + dx))) := by
+  unfold IB
+  rw [C11CL.getitemV_slices true Expr.bvar pb.height pb.width ky kx _ _ hy hx
+    (by intro y hy'; simp only [List.mem_map, List.mem_range] at hy'; obtain ⟨j, hj, rfl⟩ := hy'; omega)
+    (by intro y hy'; simp only [List.mem_map, List.mem_range] at hy'; obtain ⟨j, hj, rfl⟩ := hy'; omega)]
+  simp only [List.length_map, List.length_range]
+  congr 2
+  simp [cellsOf, List.flatMap_map, List.map_flatMap, cv, Function.comp_def]
+
+theorem axisSel_upto' (n : Nat) :
+    axisSel n (sl none (some (-1))) = .ok (false, (List.range (n - 1)).map (· + 0)) := by
+  rw [sl, C11CL.axisSel_upto]; simp
+
+theorem axisSel_from1' (n : Nat) :
+    axisSel n (sl (some 1) none) = .ok (false, (List.range (n - 1)).map (· + 1)) := by
+  rw [sl, C11CL.axisSel_from1]
+
+/-- `~(is_black[1:, 1:] & is_black[1:, :-1] & is_black[:-1, 1:] & is_black[:-1, :-1])`, one block. -/
+def sqE (w : Nat) (p : Nat × Nat) : Expr :=
+  .node .not [.node .and [.node .and [.node .and [cv w (p.1 + 1, p.2 + 1), cv w (p.1 + 1, p.2 + 0)],
+    cv w (p.1 + 0, p.2 + 1)], cv w (p.1 + 0, p.2 + 0)]]
+
+def sqCs (pb : Problem) : List Expr := (cellsOf (pb.height - 1) (pb.width - 1)).map (sqE pb.width)
+
+/-! ### the posted program in closed form -/
+
+/-- The connectivity fragment. -/
+def avc (pb : Problem) : Prog :=
+  C04L1.avcProg (Graph.grid pb.height pb.width) (bvars 0 (pb.height * pb.width)) (pb.height * pb.width) false
+
+theorem grid_pos {pb : Problem} (hwf : WellFormed pb) : 0 < (Graph.grid pb.height pb.width).n :=
+  Nat.mul_pos hwf.1 hwf.2.1
+
+theorem avc_eq {pb : Problem} (hwf : WellFormed pb) :
+    activeVerticesConnected (Graph.grid pb.height pb.width) (bvars 0 (pb.height * pb.width))
+      (pb.height * pb.width) false false = .ok (avc pb) :=
+  C04L1.avc_eq_prog (grid_pos hwf) (C04Prim.grid_wf _ _) (by simp [bvars, Graph.grid])
+    (C11FragWT.bvars_boolArgs _)
+
+theorem avc_decls_length (pb : Problem) : (avc pb).decls.length = 2 * (pb.height * pb.width) := by
+  simp [avc, C04L1.avcProg, Graph.grid]; omega
+
+/-- All region constraints. -/
+def regionCs (pb : Problem) : List Expr :=
+  (pb.blocks.zipIdx.map fun bi => blockCsN pb bi.2 (cellsN bi.1)).flatten
+
+/-- All border constraints. -/
+def borderCs (pb : Problem) : List Expr :=
+  ((cellsOf pb.height pb.width).map fun p => downE pb p ++ rightE pb p).flatten
+
+theorem mem_cellsOf {h w : Nat} {p : Nat × Nat} : p ∈ cellsOf h w ↔ p.1 < h ∧ p.2 < w := by
+  simp only [cellsOf, List.mem_flatMap, List.mem_range, List.mem_map]
+  constructor
+  · rintro ⟨y, hy, x, hx, rfl⟩; exact ⟨hy, hx⟩
+  · rintro ⟨hy, hx⟩; exact ⟨p.1, hy, p.2, hx, rfl⟩
+
+theorem program_eq {pb : Problem} (hwf : WellFormed pb) :
+    program pb = .ok
+      { decls := List.replicate (pb.height * pb.width) .bool ++ (avc pb).decls ++
+          List.replicate pb.blocks.length (.int 0 2) ++ List.replicate pb.blocks.length .bool,
+        cs := (avc pb).cs ++ sqCs pb ++ regionCs pb ++ borderCs pb,
+        keys := List.range (pb.height * pb.width) } := by
+  obtain ⟨bid, hbid, hrep⟩ := blockId_wf hwf
+  unfold program programWith
+  simp only
+  rw [C11Grid.addKeys_bvars, ok_bind, avc_eq hwf, ok_bind, IB_eq]
+  rw [slice_shift pb 1 1 _ _ (by omega) (by omega) (axisSel_from1' _) (axisSel_from1' _), ok_bind,
+    slice_shift pb 1 0 _ _ (by omega) (by omega) (axisSel_from1' _) (axisSel_upto' _), ok_bind,
+    slice_shift pb 0 1 _ _ (by omega) (by omega) (axisSel_upto' _) (axisSel_from1' _), ok_bind,
+    slice_shift pb 0 0 _ _ (by omega) (by omega) (axisSel_upto' _) (axisSel_upto' _), ok_bind]
+  rw [C11CL.binop_bool_arr2 .and_ .and (Or.inl ⟨rfl, rfl⟩) _ _ _ _ (by simp [cellsOf_length])
+    (by simp [cellsOf_length]), ok_bind, zipWith_map_same]
+  rw [C11CL.binop_bool_arr2 .and_ .and (Or.inl ⟨rfl, rfl⟩) _ _ _ _ (by simp [cellsOf_length])
+    (by simp [cellsOf_length]), ok_bind, zipWith_map_same]
+  rw [C11CL.binop_bool_arr2 .and_ .and (Or.inl ⟨rfl, rfl⟩) _ _ _ _ (by simp [cellsOf_length])
+    (by simp [cellsOf_length]), ok_bind, zipWith_map_same]
+  rw [C11CL.unop_invert_arr2 _ _ _ (by simp [cellsOf_length]), ok_bind]
+  rw [C11CL.ensureV_arr2 _ _ _ _ (by
+    intro e he
+    simp only [List.mem_map] at he
+    obtain ⟨_, ⟨_, _, rfl⟩, rfl⟩ := he
+    rfl), ok_bind, hbid, ok_bind]
+  have hnsd : intArrayDecls pb.blocks.length 0 2 = .ok (List.replicate pb.blocks.length (.int 0 2)) := by
+    simp [intArrayDecls]
+  rw [hnsd, ok_bind, avc_decls_length]
+  have hbase : pb.height * pb.width + 2 * (pb.height * pb.width) = base pb := rfl
+  rw [hbase]
+  rw [mapM_eq_ok_map (g := fun bi : List (Int × Int) × Nat => blockCsN pb bi.2 (cellsN bi.1)) (by
+    rintro ⟨b, i⟩ hbi
+    obtain ⟨hi, hbe⟩ := List.mem_zipIdx_iff_getElem?.1 hbi |> fun h => (List.getElem?_eq_some_iff.1 (by simpa using h))
+    have hbm : b ∈ pb.blocks := by rw [← hbe]; exact List.getElem_mem _
+    have hob := wf_onBoard hwf hbm
+    have := blockCs_closed hrep hi (b := cellsN b) (fun p hp => cellsN_onB hob hp)
+    rw [map_castC_cellsN hob] at this
+    exact this), ok_bind]
+  rw [mapM_eq_ok_map (g := fun p : Nat × Nat => downE pb p ++ rightE pb p) (by
+    intro p hp
+    exact adjCs_closed hwf hrep (mem_cellsOf.1 hp)), ok_bind]
+  simp only [sqCs, sqE, regionCs, borderCs, List.map_map, Function.comp_def, List.append_assoc]
+
+theorem total (pb : Problem) (hwf : WellFormed pb) : ∃ P, program pb = .ok P := ⟨_, program_eq hwf⟩
 
 end Cspuz.Proofs.C11LitsP
